@@ -47,6 +47,11 @@ class LoopMixin:
         h = st.copy()
         if alloc:
             self.advance_clock(h)  # objects are never deallocated: the clock only moves forward
+        rb = rebound_names(node.body) if hasattr(node, "body") else set()
+        for n in names:
+            v = st.env.get(n)
+            if n not in rb and n not in st.rebound and v is not None and self.is_mutable_container(v):
+                h.mutated.add(n)  # mutated in place by the loop body (caller-visible if it is a parameter)
         for n in sorted(names):
             v = st.env.get(n)
             if v is None:
@@ -597,6 +602,8 @@ class LoopMixin:
             ln = o.line or getattr(fdef, "end_lineno", 0)
             if o.kind in ("break", "continue"):
                 raise Unsupported("break/continue outside loop")
+            if o.kind in ("normal", "return"):
+                self.check_frame(s2, old, init_env, ln)
             penv = dict(s2.env)
             for n in pnames:
                 if n not in c.modifies and n in init_env:
@@ -639,6 +646,41 @@ class LoopMixin:
             if h not in self._loops_seen:
                 raise ContractMisfit(f"{c.key}: loop contract '{h}' matches no loop in the function")
         return self.obligations
+
+    def check_frame(self, s2, old, init_env, ln):
+        """`modifies` is what callers rely on: (a) every heap array the body changed without declaring it in
+        `modifies` must be unchanged on every object that existed at entry (stores to objects the function
+        allocated itself are invisible to callers); (b) a container parameter that is not listed must not have been
+        mutated in place (`State.mutated`, see assign_target)."""
+        c = self.c
+        t0 = old.alloc if old.alloc is not None else z3.Int("now0")
+        from .symex import BIRTH
+
+        for k in sorted(s2.heap):
+            arr = s2.heap[k]
+            ent = old.heap.get(k)
+            if ent is None:
+                ent = z3.Const(f"H0_{k[0]}_{k[1]}", arr.sort())
+            if z3.eq(arr, ent) or f"{k[0]}.{k[1]}" in c.modifies:
+                continue
+            r = z3.Const(fresh_name("fr"), T.RefSort)
+            # "<param>.field" entries: that object is exempt
+            exempt = [lift(init_env[p]) for p, pt in c.params.items()
+                      if isinstance(pt, T.Ref) and pt.cls == k[0] and f"{p}.{k[1]}" in c.modifies and p in init_env and not init_env[p].is_py]
+            goal = z3.ForAll([r], z3.Implies(z3.And(BIRTH(r) < t0, *[r != e for e in exempt]), z3.Select(arr, r) == z3.Select(ent, r)))
+            self.oblige(s2, goal, "modifies", f"{k[0]}.{k[1]}-unchanged@L{ln}", None,
+                        info={"clause": f"heap field {k[0]}.{k[1]} is written but not listed in modifies: it must be unchanged on every object that existed at entry"})
+        for n in sorted(getattr(s2, "mutated", ())):
+            if n in init_env and n not in c.modifies:
+                v0, v1 = init_env[n], s2.env.get(n)
+                if v1 is None or v1 is v0 or (not v0.is_py and not v1.is_py and z3.eq(v0.term, v1.term)):
+                    continue
+                try:
+                    same = ops.equal(v1, v0)
+                except (Unsupported, ContractMisfit):
+                    same = False
+                self.oblige(s2, same, "modifies", f"{n}-unchanged@L{ln}", None,
+                            info={"clause": f"parameter {n} is mutated in place but not listed in modifies: its final value must equal the initial one"})
 
     def param_is_rebound(self, fdef, name):
         for n in ast.walk(fdef):
